@@ -53,4 +53,6 @@ theorem vbint_fillAux : ∀ (fuel x : Nat) (b : Bytes) (i : Nat), Gen.vbint.fill
 theorem vbint_fill (v : Nat) : Gen.vbint.fill v = fillVb v := by
   funext b i; exact vbint_fillAux v v b i
 
+theorem complete : Gen.untranslatedWireVb = [] := by decide
+
 end Mq.Tie.WireVb
